@@ -79,6 +79,25 @@ def main():
         h += ops
         hists.append(h)
         meta.append((law, len(h) - len(members), order, members))
+    # fixed groups: high powers of the smallest and largest prefixes (the value of yocto**14 underflows a float and yotta**14 overflows one: the
+    # group is about exponents, not values), and every named unit of the registry as a canonical object
+    one_ = ["u", "one"]
+    deep = []
+    for pname in ("yocto", "zepto", "yotta", "milli", "kibi", "yobi"):
+        if pname not in prefixes: continue
+        x_ = ["pre", pname, ["div", ["u", "meter"], ["u", "second"]]]
+        for n_ in (14, 15, 16, 20, 7):
+            deep.append(("deep-powadd", [["div", ["pow", x_, n_ + 1], ["pow", x_, n_]], x_]))
+            deep.append(("deep-inverse", [["mul", ["pow", x_, n_], ["pow", x_, -n_]], one_]))
+            deep.append(("deep-powmul", [["pow", ["pow", x_, n_], -1], ["pow", x_, -n_]]))
+            deep.append(("deep-rootpow", [["root", ["pow", x_, n_], n_], x_]))
+    for nm in sorted(exp["unit_by_name"]):
+        u_ = ["u", nm]
+        deep.append(("named-canonical", [u_, ["mul", u_, one_], ["div", u_, one_], ["pow", u_, 1], ["root", ["pow", u_, 2], 2], ["div", ["mul", u_, ["u", "meter"]], ["u", "meter"]]]))
+    if c.tier == "quick": deep = c.rng.sample(deep, min(len(deep), 160))
+    for law, members in deep:
+        order = list(range(len(members)))
+        hists.append([["eval", m_] for m_ in members]); meta.append((law, 0, order, members))
     all_items = []
     kinds = {}
     laws_seen = {}
